@@ -64,6 +64,11 @@ def build_tree(case):
             stack.append(nd)
         return nodes
     from bigtree.node.node import Node
+    if cls == "falsy":
+        # instances that are falsy (a user class with __len__): only '.', '..', '*' are asked of them
+        class Node(Node):  # noqa
+            def __len__(self):
+                return 0
     for i, (d, name, attrs) in enumerate(case["nodes"]):
         del stack[d:]
         parent = stack[-1] if stack else None
@@ -177,10 +182,104 @@ def _call(case, nodes, idx):
     return {"k": "node", "v": num(r)}
 
 
+# ---- histories: search, edit the tree, search again --------------------------------------------
+# An edit refers to nodes by their number in the INITIAL tree:
+#   ["move", x, p]   nodes[x].parent = nodes[p]     (x becomes the last child of p; p not below x)
+#   ["detach", x]    nodes[x].parent = None
+#   ["delkids", x]   del nodes[x].children
+#   ["sort", x]      nodes[x].sort(key=node_name)   (stable)
+# The tree the final search sees is computed here on plain lists (shadow), independently of bigtree.
+
+
+def shadow_links(case):
+    nodes = case["nodes"]
+    n = len(nodes)
+    par, kids, stack = [None] * n, [[] for _ in range(n)], []
+    for i, (d, _, _) in enumerate(nodes):
+        del stack[d:]
+        if stack:
+            par[i] = stack[-1]
+            kids[stack[-1]].append(i)
+        stack.append(i)
+    for e in case.get("edits", []):
+        k = e[0]
+        if k in ("move", "detach"):
+            x = e[1]
+            if par[x] is not None:
+                kids[par[x]].remove(x)
+            par[x] = e[2] if k == "move" else None
+            if k == "move":
+                kids[e[2]].append(x)
+        elif k == "delkids":
+            for c in kids[e[1]]:
+                par[c] = None
+            kids[e[1]] = []
+        elif k == "sort":
+            kids[e[1]].sort(key=lambda c: nodes[c][1])
+        else:
+            raise ValueError(k)
+    return par, kids
+
+
+def final_case(case):
+    """the one-tree case (tree that contains the start node after the edits, renumbered in pre-order)
+    + the map initial number -> final number"""
+    if not case.get("edits"):
+        return case, None
+    par, kids = shadow_links(case)
+    root = case["start"]
+    while par[root] is not None:
+        root = par[root]
+    order, depths = [], []
+
+    def go(x, d):
+        order.append(x)
+        depths.append(d)
+        for c in kids[x]:
+            go(c, d + 1)
+
+    go(root, 0)
+    new = {x: j for j, x in enumerate(order)}
+    q = list(case["q"])
+    if q[0] in ("findall", "find", "find_children", "find_child"):
+        q[1] = [q[1][x] for x in order]
+    fc = dict(case)
+    fc["nodes"] = [[depths[j], case["nodes"][x][1], case["nodes"][x][2]] for j, x in enumerate(order)]
+    fc["start"] = new[case["start"]]
+    fc["q"] = q
+    fc["sep"] = case["sep"] if root == 0 else "/"      # Node._sep of a non-root node is the default
+    fc.pop("edits")
+    return fc, new
+
+
+def _apply_edit(nodes, e):
+    k = e[0]
+    if k == "move":
+        nodes[e[1]].parent = nodes[e[2]]
+    elif k == "detach":
+        nodes[e[1]].parent = None
+    elif k == "delkids":
+        del nodes[e[1]].children
+    elif k == "sort":
+        nodes[e[1]].sort(key=lambda nd: nd.node_name)
+    else:
+        raise ValueError(k)
+
+
 def run_impl(prop, case):
     nodes = build_tree(case)
     cls = case.get("cls", "node")
     idx = {id(n): i for i, n in enumerate(nodes)}
+    if case.get("edits"):
+        # read everything a search reads (depths, path names, the query itself), then edit, then search
+        for e in [None] + list(case["edits"]):
+            if e is not None:
+                _apply_edit(nodes, e)
+            _snapshot(nodes, cls)
+            [n.path_name for n in nodes]
+            [n.root.max_depth for n in nodes]
+            if e is None or case.get("warm_each"):
+                _call(case, nodes, idx)
     before = _snapshot(nodes, cls)
     obs = _call(case, nodes, idx)
     if _snapshot(nodes, cls) != before:
@@ -263,6 +362,11 @@ def _cobs(o):
 
 
 def emit(prop, case, obs):
+    case, new = final_case(case)
+    if new is not None:
+        m = lambda v: None if v is None else new.get(v, 9999)   # a node outside the searched tree: no match possible
+        obs = dict(obs)
+        obs["v"] = [m(v) for v in obs["v"]] if obs["k"] == "nodes" else m(obs["v"]) if obs["k"] == "node" else obs["v"]
     nodes = clist(
         cpair(cnat(d), cpair(cstr(name), clist(cpair(cstr(k), _cval(v)) for k, v in sorted(attrs.items()))))
         for d, name, attrs in case["nodes"])
@@ -347,6 +451,12 @@ def preorder(par):
 
 class Shape:
     def __init__(self, depths, par, names):
+        if par is None:
+            par, stack = [], []
+            for i, d in enumerate(depths):
+                del stack[d:]
+                par.append(stack[-1] if stack else None)
+                stack.append(i)
         self.depths, self.par, self.names = depths, par, names
         n = len(depths)
         self.kids = [[] for _ in range(n)]
@@ -571,6 +681,8 @@ def gen_case(rng, kind=None):
     kind = kind or rng.choice(KINDS)
     r = rng.random()
     cls = "binary" if r < 0.15 else "dag" if (r < 0.40 and kind in CHILD_KINDS) else "node"
+    if kind in ("find_relative_path", "find_relative_paths") and 0.15 <= r < 0.27:
+        cls = "falsy"
     dupsib = rng.random() < (0.3 if cls == "dag" else 0.05)
     if cls == "binary" and shape in ("star", "wide"):
         shape = "mixed"
@@ -585,6 +697,8 @@ def gen_case(rng, kind=None):
         start = rng.randrange(n)
     pool = [x for x in NAME_POOLS[pool_name] if name_ok(x, sep, strict)]
     q = gen_query(rng, kind, sh, start, sep, pool, attrs, star=(cls != "binary" or BINARY_STAR))
+    if cls == "falsy":
+        q[1] = sep.join(rng.choice([".", "..", "*", "*", ".."]) for _ in range(rng.randint(1, 4)))
     case = {"sep": sep, "nodes": [[sh.depths[i], sh.names[i], attrs[i]] for i in range(n)],
             "start": start, "q": q, "cls": cls,
             "cstyle": rng.choice(["bool", "bool", "mixed"]), "pos": rng.random() < 0.4}
@@ -604,6 +718,123 @@ def gen_case(rng, kind=None):
     return label, case
 
 
+DEPTH_KINDS = ["findall", "find", "find_name", "find_names", "find_attr", "find_attrs"]
+
+
+def gen_history(rng, kind=None):
+    """build, read, apply 1-3 structural edits (a node WITH descendants moves to another level, detach,
+    delete children, sort), search again; max_depth at the boundaries of the edited tree"""
+    shape = rng.choice(["deep", "mixed", "mixed", "wide", "path"])
+    pool_name = rng.choice(["distinct", "distinct", "repeated", "affix"])
+    sep = rng.choice(["/", "/", "-", ".", "|", "->"])
+    n = rng.randint(4, MAXN)
+    sh = gen_tree(rng, shape, pool_name, sep, n)
+    names = sh.names
+    if len(set(names)) < n and rng.random() < 0.7:      # moves need free names at the destination
+        names = sh.names = [nm if names.index(nm) == i else nm + str(i) for i, nm in enumerate(names)]
+    attrs = gen_attrs(rng, n)
+    case = {"sep": sep, "nodes": [[sh.depths[i], names[i], attrs[i]] for i in range(n)], "start": 0, "q": None,
+            "cls": "node", "cstyle": rng.choice(["bool", "bool", "mixed"]), "pos": rng.random() < 0.4,
+            "edits": [], "warm_each": rng.random() < 0.5}
+    moved = []
+    for _ in range(rng.choice([1, 1, 2, 2, 3])):
+        par, kids = shadow_links(case)
+
+        def below(x):
+            out, st = [], [x]
+            while st:
+                y = st.pop()
+                out.append(y)
+                st.extend(kids[y])
+            return out
+
+        def depth(x):
+            d = 0
+            while par[x] is not None:
+                x = par[x]
+                d += 1
+            return d
+
+        r = rng.random()
+        inner = [x for x in range(n) if kids[x]]
+        if r < 0.65:
+            xs = [x for x in (inner if rng.random() < 0.8 and inner else range(n))]
+            rng.shuffle(xs)
+            done = False
+            for x in xs:
+                sub = set(below(x))
+                ps = [p for p in range(n) if p not in sub and p != par[x] and depth(p) + 1 != depth(x)
+                      and all(names[c] != names[x] for c in kids[p])]
+                if ps:
+                    case["edits"].append(["move", x, rng.choice(ps)])
+                    moved.append(x)
+                    done = True
+                    break
+            if not done:
+                continue
+        elif r < 0.80:
+            xs = [x for x in (inner or range(n)) if par[x] is not None]
+            if not xs:
+                continue
+            x = rng.choice(xs)
+            case["edits"].append(["detach", x])
+            moved.append(x)
+        elif r < 0.90 and inner:
+            x = rng.choice(inner)
+            case["edits"].append(["delkids", x])
+            moved.extend(kids[x])
+        elif inner:
+            case["edits"].append(["sort", rng.choice(inner)])
+    if not case["edits"]:
+        return None
+    # the start node: inside a moved subtree, above it, or anywhere
+    par, kids = shadow_links(case)
+    r = rng.random()
+    if moved and r < 0.45:
+        x = rng.choice(moved)
+        sub, st = [], [x]
+        while st:
+            y = st.pop()
+            sub.append(y)
+            st.extend(kids[y])
+        start = rng.choice(sub)
+    elif moved and r < 0.8:
+        start = rng.choice(moved)
+        while par[start] is not None and rng.random() < 0.7:
+            start = par[start]
+    else:
+        start = rng.randrange(n)
+    case["start"] = start
+    case["q"] = ["find_name", "zz", 0]
+    fc, new = final_case(case)
+    fsh = Shape([d for d, _, _ in fc["nodes"]], None, [nm for _, nm, _ in fc["nodes"]])
+    fsep = fc["sep"]
+    pool = [x for x in NAME_POOLS[pool_name] if name_ok(x, fsep) and name_ok(x, sep)]
+    kind = kind or (rng.choice(DEPTH_KINDS) if rng.random() < 0.7 else rng.choice(KINDS))
+    fattrs = [a for _, _, a in fc["nodes"]]
+    q = gen_query(rng, kind, fsh, fc["start"], fsep, pool, fattrs)
+    if kind in DEPTH_KINDS:
+        # max_depth at every boundary of the edited tree and at the depths the moved nodes had before
+        d0 = fsh.depths[fc["start"]] + 1
+        sub = fsh.subtree(fc["start"])
+        h = max(fsh.depths[i] for i in sub) + 1
+        old = [sh.depths[x] + 1 for x in moved]
+        nowd = [fsh.depths[new[x]] + 1 for x in moved if x in new]
+        md = rng.choice([0, 1, d0, d0 + 1, h - 1, h, h + 1] + old + nowd + [d - 1 for d in old + nowd if d > 1])
+        q[{"findall": 2, "find": 2, "find_name": 2, "find_names": 2, "find_attr": 3, "find_attrs": 3}[kind]] = max(md, 0)
+    if q[0] in ("findall", "find", "find_children", "find_child"):      # table: final numbering -> initial numbering
+        inv = {j: x for x, j in new.items()}
+        tab = [rng.random() < 0.5 for _ in range(n)]
+        for j, b in enumerate(q[1]):
+            tab[inv[j]] = b
+        q[1] = tab
+    case["q"] = q
+    if any(name_ok(nm, "/") is False for nm in names):
+        return None                                   # a detached part has the separator "/"
+    label = f"history/{kind}/" + "+".join(e[0] for e in case["edits"])
+    return label, case
+
+
 def _exhaustive_shapes(n):
     """all ordered trees with n nodes as depth sequences"""
     out = []
@@ -620,10 +851,17 @@ def _exhaustive_shapes(n):
 
 
 def generate(prop, rng, tier):
-    count = {"quick": 2400, "thorough": 40000, "search": 6000}[tier]
+    count = {"quick": 2000, "thorough": 34000, "search": 5000}[tier]
     for i in range(count):
         kind = KINDS[i % len(KINDS)]
         yield gen_case(rng, kind)
+    hist = {"quick": 600, "thorough": 8000, "search": 1500}[tier]
+    made = 0
+    while made < hist:
+        h = gen_history(rng)
+        if h is not None:
+            made += 1
+            yield h
     if tier == "thorough":
         # small scope: every ordered tree with <= 5 nodes, names from a repeated/affix pool, every start node
         for n in range(1, 6):
@@ -749,11 +987,17 @@ def nontrivial(prop, case, obs):
 
 def rule(prop):
     return ("one search call (made twice; the tree is snapshotted before/after: links, names, sep, depth) on a tree of 1-11 "
-            "nodes; classes Node (75%), BinaryNode with empty left/right slots (15%, all functions, no '*'), DAGNode (children "
+            "nodes; classes Node (75%; for relative paths over . .. * also a subclass whose instances are falsy), BinaryNode with empty "
+            "left/right slots (15%, all functions incl. '*'), DAGNode (children "
             "functions only); shapes wide/deep/mixed/path/star; name pools distinct/repeated/affix/special; separators "
             "/ \\ - . | + space : and, in 25% of the cases, the multi-character -> :: => // -|- (80% of those with no "
             "separator character in any name = the guard of the *_multi theorems, 20% only substring-free = K3 territory) "
-            "(children built with a different own _sep than the root); 5% duplicate sibling names made "
+            "(children built with a different own _sep than the root); plus histories (a quarter of the cases): build, read "
+            "depths/path names/run the query, apply 1-3 structural edits through the public API (move a node with its "
+            "descendants under a parent at another level, detach, delete children, sort children), optionally searching "
+            "between the edits, then search and compare with the model of the edited tree (computed by the harness on plain "
+            "lists); start node inside/above/outside the moved part; max_depth at 0, 1, start depth, height-1/height/height+1 "
+            "and the old and new depths of the moved nodes; 5% duplicate sibling names made "
             "by renaming (30% for DAG); every start node; 14 query kinds (condition tables returning bools or truthy/falsy "
             "non-bools, names, path suffixes/infixes/near misses/empty, full paths, relative paths over . .. * names, "
             "attributes None/int/bool/str/''/float/large int passed as equal-but-not-identical objects, counts 0-4, "
@@ -762,11 +1006,12 @@ def rule(prop):
 
 
 def sample(prop, case, obs):
-    return {"sep": case["sep"], "nodes": case["nodes"], "start": case["start"], "query": case["q"], "observed": obs}
+    return {"sep": case["sep"], "nodes": case["nodes"], "start": case["start"], "query": case["q"],
+            "edits": case.get("edits", []), "observed": obs}
 
 
 def size(case):
-    return 10 * len(case["nodes"]) + sum(len(x) if isinstance(x, (str, list)) else 1 for x in case["q"])
+    return 10 * len(case["nodes"]) + 5 * len(case.get("edits", [])) + sum(len(x) if isinstance(x, (str, list)) else 1 for x in case["q"])
 
 
 def _drop_node(case, i):
@@ -789,6 +1034,21 @@ def _drop_node(case, i):
 
 
 def shrink_candidates(prop, case):
+    if case.get("edits"):
+        ed = case["edits"]
+        for k in range(len(ed)):
+            c = dict(case)
+            c["edits"] = ed[:k] + ed[k + 1:]
+            try:
+                final_case(c)
+            except Exception:  # noqa
+                continue
+            yield c
+        if case.get("warm_each"):
+            c = dict(case)
+            c["warm_each"] = False
+            yield c
+        return
     for i in range(len(case["nodes"]) - 1, 0, -1):
         c = _drop_node(case, i)
         if c is not None:
@@ -843,7 +1103,10 @@ def partial_clauses(prop):
             "non-empty names (as designed); an absolute path given to find_relative_paths is not subject to "
             "min_count/max_count and a missing one yields (None,) - prop_C09 accepts any expression of 'no node' there "
             "(the model comparison is exact everywhere, so a change in these branches is still reported, as a broken correspondence)",
-            "accepted blind spots of the correspondence (never generated): names that are not str (Node(1): find_full_path('/1/2') raises ValueError while "
+            "accepted blind spots of the correspondence (never generated): histories on BinaryNode/DAGNode objects and "
+            "edits other than parent assignment / detach / del children / sort; falsy node instances for anything but "
+            "'.', '..', '*' (the unchanged tree skips them: `if tree and` in preorder_iter, `if _node and` in find_children, "
+            "`if not child_node` in find_full_path); names that are not str (Node(1): find_full_path('/1/2') raises ValueError while "
             "find_paths('2') finds the node); conditions that raise; attribute values that are lists/dicts/NaN; attribute names "
             "that are class properties (name, depth, path_name, ...); negative max_depth/min_count/max_count; the empty separator, "
             "the separator '*'; multi-character separators with a clean-violating query over separator-free names (K3 variant, "
